@@ -15,7 +15,7 @@ from .. import e2
 from .. import model as M
 from ..codec import src, unsrc
 from ..common import verdict
-from ..runner import Acc, parallel
+from ..runner import Acc, parallel, parallel_fresh
 from ..terms import E, Builder, fp, show, try_build
 from ..universe import INT, NONE, S, STR, call, children, ln
 from ..values import dedup, value_universe
@@ -192,13 +192,18 @@ def judge(label, t, tier, acc, rng):
     return found
 
 
-def worker(shard, nshards, tier, seed):
+def worker(shard, nshards, tier, seed, mode="shard"):
     acc = Acc()
     rng = e2.Scripted(seed)
     with e2.installed(rng):
-        for i, (label, t) in enumerate(cases(tier)):
-            if i % nshards != shard:
-                continue
+        todo = [(i, c) for i, c in enumerate(cases(tier)) if i % nshards == shard]
+        if mode == "one-process":
+            # all aliases (they share one name) and every 25th other combination in ONE process,
+            # forwards then backwards: state kept between declarations meets a different operand
+            allc = list(enumerate(cases(tier)))
+            todo = [(i, c) for i, c in allc if c[0] == "alias" or i % 25 == 0]
+            todo = todo + todo[::-1]
+        for i, (label, t) in todo:
             acc.count("combinations")
             acc.n["kind:" + label] += 1
             for sig, detail in judge(label, t, tier, acc, rng):
@@ -211,6 +216,9 @@ def worker(shard, nshards, tier, seed):
 
 def run(tier, seed):
     acc = parallel(worker, tier, seed, warm_pass=True)
+    one = parallel_fresh(worker, tier, seed, nshards=1, extra=("one-process",))
+    one.n = type(one.n)({"one_process:" + k: c for k, c in one.n.items()})
+    acc.merge(one)
     cov = {
         "states": acc.n["combinations"],
         "transitions": acc.n["validations"] + acc.n["generations"],
@@ -222,6 +230,7 @@ def run(tier, seed):
                 "distinct = (combination, value, expected verdict) triples",
         "exhaustive": True,
         "by_kind": {k[5:]: v for k, v in acc.n.items() if k.startswith("kind:")},
+        "one_process_pass": {"combinations_forwards_and_backwards": acc.n["one_process:combinations"]},
         "bounds": {"tier": tier, "dict_operands": len(dict_operands(tier)),
                    "dict_values": len(dict_values(tier))},
     }
